@@ -18,6 +18,7 @@ import KafkaVerif.Model.ReaderLoopLTS
 import KafkaVerif.Model.PullReader
 import KafkaVerif.Model.ReaderWorld
 import KafkaVerif.Model.ByteReader
+import KafkaVerif.Model.ByteHeader
 
 namespace KV.OracleC02
 open KV KV.C02
@@ -101,6 +102,8 @@ def parseFault (s : String) : Option (Nat × Fault) :=
   | [i, k] => do
     let idx ← i.toNat?
     if k.startsWith "cut" then pure (idx, .cut (← (k.drop 3).toString.toNat?))
+    -- OffsetOutOfRange followed by an unanswered ListOffsets: readOffsets fails at its deadline → conn.Close(); break readLoop
+    else if k == "err1h" then pure (idx, .hang)
     else if k.startsWith "err" then pure (idx, .err (← (k.drop 3).toString.toNat?))
     else if k == "hang" then pure (idx, .hang)
     else if k == "move" then pure (idx, .move)
@@ -175,7 +178,7 @@ def tokCfg : TokCfg :=
     dg1 := fun m => digestOf m.key m.value (if m.magic = 0 then -1 else m.ts) [] }
 
 /-- the byte-level Go reads (Model/ByteReader.lean: readVarInt / readInt8 / runFunc / readMessageHeader with the
-`remain` accounting) walking a message set of uncompressed v2 batches: the 61 header bytes, then `count` records, each
+`remain` accounting) walking a message set of uncompressed v2 batches and v0/v1 messages: the header (`BR.readHeaderB`), then `count` records, each
 with `remain` = what is left of the whole set; errShortRead ends the walk like it ends the batch -/
 def brWalk : Nat → Option (H2 × Nat) → Bytes → List Tok
   | 0, _, _ => []
@@ -183,29 +186,23 @@ def brWalk : Nat → Option (H2 × Nat) → Bytes → List Tok
     if bs.isEmpty then []
     else match st with
       | none =>
-        match Spec.RB.magicOf bs with
-        | none => [.cut]
-        | some mg =>
-          if mg = 2 then
-            if bs.length < 61 then [.cut]
-            else match readH2 bs with
-              | none => [.cut]
-              | some (h, rest) =>
-                Tok.h2 h.base h.lod h.count.toNat (h.attrs % 8 != 0) h.plen ::
-                  brWalk fuel (if h.count.toNat = 0 then none else some (h, h.count.toNat)) rest
-          else
-            -- a v0/v1 message: the fixed header, then readMessageV1's `readBytesWith(key)`, `readBytesWith(val)`
-            if bs.length < (if mg = 1 then 26 else 18) then [.cut]
-            else match readH1 bs with
-              | none => [.cut]
-              | some (h, rest) =>
-                let ts : Int := if mg = 1 then (match RW.readI64 (bs.drop 18) with | some (t, _) => t | none => 0) else -1
-                Tok.h1 h.magic.toNat h.off (h.attrs % 8 != 0) ::
-                  if rest.isEmpty then [] else      -- nothing left: the stream ends, no `cut` token
-                  match BR.readBodyV1 ⟨rest, rest.length⟩ with
-                  | .error _ => [.cut]
-                  | .ok ((k, v), r') =>
-                    Tok.kv (digestOf k v ts []) (rest.length - r'.bs.length) :: brWalk fuel none r'.bs
+        -- message_reader.go readHeader field by field (Model/ByteHeader.lean), `remain` = what is left of the set
+        match BR.readHeaderB ⟨bs, bs.length⟩ with
+        | .error _ => [.cut]
+        | .ok (.bad _, _) => [.cut]
+        | .ok (.v2 h, r') =>
+          Tok.h2 h.base h.lod h.count.toNat (h.attrs % 8 != 0) h.plen ::
+            brWalk fuel (if h.count.toNat = 0 then none else some (h, h.count.toNat)) r'.bs
+        | .ok (.v1 h, r') =>
+          -- a v0/v1 message: the fixed header, then readMessageV1's `readBytesWith(key)`, `readBytesWith(val)`
+          let rest := r'.bs
+          let ts : Int := if h.magic = 1 then (match RW.readI64 (bs.drop 18) with | some (t, _) => t | none => 0) else -1
+          Tok.h1 h.magic.toNat h.off (h.attrs % 8 != 0) ::
+            if rest.isEmpty then [] else      -- nothing left: the stream ends, no `cut` token
+            match BR.readBodyV1 ⟨rest, rest.length⟩ with
+            | .error _ => [.cut]
+            | .ok ((k, v), r'') =>
+              Tok.kv (digestOf k v ts []) (rest.length - r''.bs.length) :: brWalk fuel none r''.bs
       | some (h, k) =>
         match BR.readRecordV2 ⟨bs, bs.length⟩ with
         | .error _ => [.cut]
@@ -544,6 +541,32 @@ def step (line : String) : String :=
         match field iw "msg", field iw "read" with
         | some a, some b => if a == b then answer impl true else answer s!"msg={a} read={a}" false
         | _, _ => "bad-op"
+      else if op == "unkcodec" then
+        -- a batch with an unknown compression codec: the loop LTS says `read` → errUnknownCodec is "sendError; break
+        -- readLoop" (back to the top of the outer loop, no connection, one more error for the application, nothing
+        -- delivered); the driver reports what the real loop did with its connections meanwhile
+        let s0 : RR := { offset := -2 }
+        let s1 := rrun {} s0 [.initOk 100 102, .sleepOk, .unknownCodec, .sleepOk, .initOk 100 102, .sleepOk, .unknownCodec]
+        let model := s!"errs=4 msgs={s1.msgs.length} leak=no afterclose=all"
+        answer model (s1.phase == .top && s1.errors == [0, 0] && s1.msgs.isEmpty && impl == model)
+      else if op == "oore" then
+        -- ReaderConfig.OffsetOutOfRangeError, a fetcher started beyond the log end, through the loop LTS: `initialize`'s
+        -- Seek refuses (resolved offset > last) — with the option the error goes to the application and `run` returns,
+        -- without it `run` retries for ever; a fetcher started at a stored offset afterwards is reading there
+        match fieldInt ws "option", fieldInt ws "start", fieldInt ws "first", fieldInt ws "last" with
+        | some opt, some start, some first, some last =>
+          let cfg : RCfg := { offsetOutOfRangeError := opt == 1 }
+          let s1 := rrun cfg { offset := start } [.initOk first last]
+          let s2 := rrun cfg s1 [.sleepOk, .initOk first last, .sleepOk, .initOk first last, .sleepOk, .initFail true]
+          let s3 := rrun cfg { offset := 102 } [.initOk first last]
+          let show1 (before after : RR) : String :=
+            match after.errors.drop before.errors.length with
+            | [] => "nothing"
+            | c :: _ => s!"kafka{c}"
+          let third := if s3.phase == .reading then s!"{s3.connOff}" else "nothing"
+          let model := s!"fetch1={show1 { offset := start } s1} fetch2={show1 s1 s2} after-setoffset-102={third}"
+          answer model (impl == model && (opt == 1) == (s1.phase == .stopped) && s2.msgs.isEmpty)
+        | _, _, _, _ => "bad-op"
       else if op == "earlyclose" then
         -- Batch.Close before the end of the batch: Close returned nil ⇒ the Conn is at a response boundary (the next call works)
         let iw := words impl
